@@ -20,12 +20,12 @@ INFD == 1000000                    \* "no path"
 RECURSIVE Closure(_, _, _)
 Closure(D, k, n) ==
   IF k > n THEN D
-  ELSE Closure(TLCEval([i \in 1..n |-> [j \in 1..n |-> Min2(D[i][j], D[i][k] + D[k][j])]]), k + 1, n)
-DistMat(A) == Closure(TLCEval([i \in 1..Len(A) |-> [j \in 1..Len(A) |->
-                         IF i = j THEN 0 ELSE IF A[i][j] = 1 THEN 1 ELSE INFD]]), 1, Len(A))
+  ELSE Closure(TLCEval([i \in 1..n |-> TLCEval([j \in 1..n |-> Min2(D[i][j], D[i][k] + D[k][j])])]), k + 1, n)
+DistMat(A) == Closure(TLCEval([i \in 1..Len(A) |-> TLCEval([j \in 1..Len(A) |->
+                         IF i = j THEN 0 ELSE IF A[i][j] = 1 THEN 1 ELSE INFD])]), 1, Len(A))
 \* with positive integer link lengths L[i][j] (only where A[i][j] = 1)
-WDistMat(A, L) == Closure(TLCEval([i \in 1..Len(A) |-> [j \in 1..Len(A) |->
-                         IF i = j THEN 0 ELSE IF A[i][j] = 1 THEN L[i][j] ELSE INFD]]), 1, Len(A))
+WDistMat(A, L) == Closure(TLCEval([i \in 1..Len(A) |-> TLCEval([j \in 1..Len(A) |->
+                         IF i = j THEN 0 ELSE IF A[i][j] = 1 THEN L[i][j] ELSE INFD])]), 1, Len(A))
 \* number of shortest paths, by distance layers: sigma(s,s) = 1,
 \* sigma(s,t) = sum over predecessors u of t (A[u][t] = 1, d(s,u) = d(s,t) - 1) of sigma(s,u);
 \* the n.s.i. variant weights every path by the product of the weights of its interior
@@ -34,29 +34,32 @@ RECURSIVE SigLayers(_, _, _, _, _)
 SigLayers(A, D, w, P, d) ==
   IF d > Len(A) THEN P
   ELSE SigLayers(A, D, w,
-         TLCEval([s \in 1..Len(A) |-> [t \in 1..Len(A) |->
+         TLCEval([s \in 1..Len(A) |-> TLCEval([t \in 1..Len(A) |->
             IF D[s][t] = d
             THEN SumN(LAMBDA u : IF A[u][t] = 1 /\ D[s][u] = d - 1
                                  THEN P[s][u] * (IF u = s THEN 1 ELSE w[u]) ELSE 0, 1, Len(A))
-            ELSE P[s][t]]]), d + 1)
-SigmaWMat(A, D, w) == SigLayers(A, D, w, TLCEval([s \in 1..Len(A) |-> [t \in 1..Len(A) |->
-                                                   IF s = t THEN 1 ELSE 0]]), 1)
+            ELSE P[s][t]])]), d + 1)
+SigmaWMat(A, D, w) == SigLayers(A, D, w, TLCEval([s \in 1..Len(A) |-> TLCEval([t \in 1..Len(A) |->
+                                                   IF s = t THEN 1 ELSE 0])]), 1)
 SigmaMat(A, D) == SigmaWMat(A, D, [k \in 1..Len(A) |-> 1])
 
 \* ---------------------------------------------------------------- context ---
+\* (Strict: the tables are bound as values, see Fx; a lazily bound LET would be re-evaluated at
+\* every reference made under a bound variable)
+CtxFrom(A, dir, w, Um, Dm) ==
+  LET n == Len(A) IN
+  [A |-> A, n |-> n, dir |-> dir, w |-> w, U |-> Um,
+   ko |-> TLCEval([i \in 1..n |-> SumN(LAMBDA j : A[i][j], 1, n)]),
+   ki |-> TLCEval([i \in 1..n |-> SumN(LAMBDA j : A[j][i], 1, n)]),
+   ku |-> TLCEval([i \in 1..n |-> SumN(LAMBDA j : Um[i][j], 1, n)]),
+   \* n.s.i. degrees k*_i = sum_j A+_ij w_j  (A+ = A + identity)
+   ks |-> TLCEval([i \in 1..n |-> w[i] + SumN(LAMBDA j : A[i][j] * w[j], 1, n)]),
+   ksi |-> TLCEval([i \in 1..n |-> w[i] + SumN(LAMBDA j : A[j][i] * w[j], 1, n)]),
+   W |-> SumN(LAMBDA j : w[j], 1, n),
+   D |-> Dm, Sg |-> SigmaMat(A, Dm), Sw |-> SigmaWMat(A, Dm, w)]
 Ctx(A, dir, w) ==
-  LET n == Len(A)
-      Um == TLCEval([i \in 1..n |-> [j \in 1..n |-> IF A[i][j] = 1 \/ A[j][i] = 1 THEN 1 ELSE 0]])
-      Dm == DistMat(A)
-  IN [A |-> A, n |-> n, dir |-> dir, w |-> w, U |-> Um,
-      ko |-> TLCEval([i \in 1..n |-> SumN(LAMBDA j : A[i][j], 1, n)]),
-      ki |-> TLCEval([i \in 1..n |-> SumN(LAMBDA j : A[j][i], 1, n)]),
-      ku |-> TLCEval([i \in 1..n |-> SumN(LAMBDA j : Um[i][j], 1, n)]),
-      \* n.s.i. degrees k*_i = sum_j A+_ij w_j  (A+ = A + identity)
-      ks |-> TLCEval([i \in 1..n |-> w[i] + SumN(LAMBDA j : A[i][j] * w[j], 1, n)]),
-      ksi |-> TLCEval([i \in 1..n |-> w[i] + SumN(LAMBDA j : A[j][i] * w[j], 1, n)]),
-      W |-> SumN(LAMBDA j : w[j], 1, n),
-      D |-> Dm, Sg |-> SigmaMat(A, Dm), Sw |-> SigmaWMat(A, Dm, w)]
+  Strict(TLCEval([i \in 1..Len(A) |-> TLCEval([j \in 1..Len(A) |-> IF A[i][j] = 1 \/ A[j][i] = 1 THEN 1 ELSE 0])]),
+         LAMBDA Um : Strict(DistMat(A), LAMBDA Dm : CtxFrom(A, dir, w, Um, Dm)))
 Ap(G, i, j) == IF i = j THEN 1 ELSE G.A[i][j]
 Nb(G, i) == {j \in 1..G.n : j # i /\ G.U[i][j] = 1}
 
